@@ -79,7 +79,7 @@ CONSTANTS Cfgs,     \* sequence of [K, nr, nt, ns, nte, jp, amps] - antenna / st
 VARIABLE dv
 DevNames == {"OwnStreamNotSubtracted", "NoiseNotFiltered", "ExtIntPowerIgnored", "JpRowsOfOtherUser", "PathlossIgnored",
              "ConjMissing", "SolverScalesByP", "ListPrecodersScaledAlongStreams", "PowerNoneKeepsCaches",
-             "PlExpansionReusedOnEqualShape", "SolverIgnoresExtInt"}
+             "PlExpansionReusedOnEqualShape", "SolverIgnoresExtInt", "FullFKeepsStaleNs"}
 Dev == [nm \in DevNames |-> dv = nm]
 DevRec == CHOOSE d \in DevTry : d.name = dv
 CfgOk(ci)   == IF dv = "none" THEN TRUE ELSE ci \in DevRec.cfgs
@@ -124,6 +124,12 @@ NoiseTags == <<"none", "zero", "half", "one", "two">>
 NoiseVar(t) == IF t = "half" THEN <<1, 2>> ELSE IF t = "one" THEN <<1, 1>> ELSE IF t = "two" THEN <<2, 1>> ELSE RZero   \* None and 0 add nothing
 PwKinds == <<"vec", "scalar", "none">>                      \* how the solver's P setter is fed
 FreshOp == [kind |-> "fresh", pl |-> "set", pw |-> "ctor"]
+\* How the precoders reach the solver: "ctor" = set_precoders(F, P), "fullF" = set_precoders(full_F = sqrt(P) F) alone.
+\* What the solver did BEFORE (its prehistory `pre`: nothing, randomizeF(pre.ns), or set_precoders / set_receive_filters
+\* with pre.ns streams per user - another stream count wherever the antennas allow) must not matter: every reported value
+\* is a function of the LAST precoders / filters / powers handed over (SolverHistoryIrrelevant).
+PreKinds == <<"none", "randomizeF", "set_precoders">>
+PreNs(ns, nr, nt) == [k \in 1..Len(ns) |-> IF ns[k] = 1 THEN (IF nr[k] >= 2 /\ nt[k] >= 2 THEN 2 ELSE 1) ELSE 1]
 
 RECURSIVE Str(_, _)
 Str(x, n) == IF n = 0 THEN <<>> ELSE <<x>> \o Str(LcgNext(x), n - 1)
@@ -147,6 +153,7 @@ MkFrom(g, x0, unz, plOn) ==
       am == AmpSets[g.amps]
       pw == PaSets[g.amps]
   IN [ id |-> <<0, 0>>, chain |-> <<>>, step |-> 0, op |-> FreshOp, scr |-> <<>>,
+       pre |-> [kind |-> PreKinds[((Pk(s, oX + 2, 5) + Pk(s, oX + 4, 5)) % 3) + 1], ns |-> PreNs(g.ns, g.nr, g.nt)],
        K |-> K, nr |-> g.nr, nt |-> g.nt, ns |-> g.ns, nte |-> g.nte, jp |-> g.jp,
        H  |-> [i \in 1..RR |-> [j \in 1..C |-> Alpha[Pk(s, (i - 1) * C + j, 6)]]],
        F  |-> [k \in 1..K |-> [a \in 1..(IF g.jp THEN T ELSE g.nt[k]) |-> [b \in 1..g.ns[k] |->
@@ -173,7 +180,8 @@ MkExh(n) ==
       s  == Str(Start(0, n), 16)
       am == AmpSets[2]
       pw == PaSets[2]
-  IN [ id |-> <<0, n>>, chain |-> <<>>, step |-> 0, op |-> FreshOp, scr |-> <<>>,
+  IN [ id |-> <<0, n>>, chain |-> <<>>, step |-> 0, op |-> [FreshOp EXCEPT !.pw = IF n % 2 = 0 THEN "ctor" ELSE "fullF"], scr |-> <<>>,
+       pre |-> [kind |-> PreKinds[(n % 3) + 1], ns |-> <<1, 1>>],
        K |-> 2, nr |-> <<1, 1>>, nt |-> <<1, 1>>, ns |-> <<1, 1>>, nte |-> <<>>, jp |-> FALSE,
        H  |-> << <<Alpha[(hd % 6) + 1], Alpha[((hd \div 6) % 6) + 1]>>,
                  <<Alpha[((hd \div 36) % 6) + 1], Alpha[((hd \div 216) % 6) + 1]>> >>,
@@ -239,7 +247,8 @@ ZfU(c) == [k \in 1..2 |-> LET g1 == Rx(c, FullF(c), k, k, 1)
                            IN  [a \in 1..2 |-> <<u1[a], u2[a]>>]]
 \* seeded family: dimensions from Cfgs[ci]
 MkSeeded(ci, n) == LET g  == Cfgs[ci]
-                       b  == [MkFrom(g, Start(ci, n), g.zf, FALSE) EXCEPT !.id = <<ci, n>>]
+                       b  == [MkFrom(g, Start(ci, n), g.zf, FALSE) EXCEPT !.id = <<ci, n>>,
+                                                                          !.op = [FreshOp EXCEPT !.pw = IF (ci + n) % 2 = 0 THEN "ctor" ELSE "fullF"]]
                        b2 == [b EXCEPT !.F = ZfF(b)]
                    IN  IF ~g.zf THEN b ELSE IF g.ns[1] = 2 THEN [b2 EXCEPT !.U = ZfU(b2)] ELSE b2
 MkCase(ci, n) == IF ci = 0 THEN MkExh(n) ELSE MkSeeded(ci, n)
@@ -344,6 +353,7 @@ Required(c) ==
   \o (IF c.chain # <<>> THEN <<"BystanderUnaffected", "RejectedChangesNothing", "RandomizeThenQueryCoherent">> ELSE <<>>)
   \o (IF c.op.kind = "scribble" THEN <<"AliasCoherent">> ELSE <<>>)
   \o (IF ClosedFormApplies(c) THEN <<"SolveSelfConsistent">> ELSE <<>>)
+  \o (IF ~c.jp THEN <<"SolverHistoryIrrelevant">> ELSE <<>>)
 
 (* everything the harness compares with the real code *)
 \* determinant of a 1 x 1 / 2 x 2 matrix over one common denominator (fraction free: 32-bit integers)
@@ -435,7 +445,9 @@ NoOut  == [sinr |-> <<>>]
 \*   pa   : the powers inside the solver's full_F / full_W_H
 \*   part : the antenna partition the channel's per-antenna path-loss expansion was made for
 PartOf(c) == <<c.nr, c.nt, c.nte>>
-NoCache == [pa |-> <<>>, part |-> <<>>]
+NoCache == [pa |-> <<>>, part |-> <<>>, ns |-> <<>>]
+\* the stream counts the solver believes after the precoders were handed over
+NsAfter(c, old) == IF Dev.FullFKeepsStaleNs /\ c.op.pw = "fullF" /\ old # <<>> THEN old ELSE c.ns
 
 Init == inp = NoCase /\ out = NoOut /\ cache = NoCache /\ dv \in (IF DevTry = {} THEN {"none"} ELSE {d.name : d \in DevTry})
 
@@ -447,7 +459,7 @@ Pick(ci, n) ==
      IN  /\ PowValid(c, pt)                    \* undefined SINRs (0 / 0) are outside the property
          /\ inp' = c
          /\ out' = OutOf(c, pt)
-         /\ cache' = [pa |-> c.pa, part |-> PartOf(c)]
+         /\ cache' = [pa |-> c.pa, part |-> PartOf(c), ns |-> NsAfter(c, IF c.pre.kind = "none" THEN <<>> ELSE c.pre.ns)]
 
 PickExhaustive == \E n \in Lo..Hi : CLo = 0 /\ dv = "none" /\ n < ExhCount /\ Pick(0, n)
 PickSeeded     == \E ci \in CLo..CHi : \E n \in Lo..Hi : ci > 0 /\ CfgOk(ci) /\ NumOk(n) /\ Pick(ci, n)
@@ -470,7 +482,9 @@ InitCase(prev, hi, n, s, r) ==
       keep == s > 1 /\ (n + (s \div 2)) % 2 = 0
   IN  [base EXCEPT !.id = ChainId(hi, n, s), !.chain = <<hi, n>>, !.step = s,
                    !.pl = IF keep THEN prev.pl ELSE base.pl,
-                   !.op = [kind |-> IF s = 1 THEN "init" ELSE "reinit", pl |-> IF keep THEN "keep" ELSE "set", pw |-> "ctor"]]
+                   !.op = [kind |-> IF s = 1 THEN "init" ELSE "reinit", pl |-> IF keep THEN "keep" ELSE "set",
+                           \* the LAST step (no power step follows) hands full_F alone on every other chain
+                           pw |-> IF s = Len(hc.ops) /\ s > 1 /\ n % 2 = 0 THEN "fullF" ELSE "ctor"]]
 \* step s changes only the powers, through the P setter of the solver; the j-th power step of chain n is fed
 \* with a vector / a scalar / None according to the j-th base-3 digit of n (all orders occur)
 PowerCase(prev, hi, n, s) ==
@@ -529,7 +543,9 @@ ChainLeaf == /\ inp # NoCase
 \* what the caches of the real objects hold after the step (readers fill them)
 CacheAfter(c) ==
   [ pa   |-> IF c.op.kind = "power" /\ c.op.pw = "none" /\ Dev.PowerNoneKeepsCaches THEN cache.pa ELSE c.pa,
-    part |-> IF c.op.kind = "reinit" /\ c.op.pl = "keep" /\ Dev.PlExpansionReusedOnEqualShape THEN cache.part ELSE PartOf(c) ]
+    part |-> IF c.op.kind = "reinit" /\ c.op.pl = "keep" /\ Dev.PlExpansionReusedOnEqualShape THEN cache.part ELSE PartOf(c),
+    ns   |-> IF c.op.kind \in {"init", "reinit"} THEN NsAfter(c, IF c.op.kind = "init" /\ c.pre.kind # "none" THEN c.pre.ns ELSE cache.ns)
+             ELSE cache.ns ]
 
 Step(a) ==
   /\ PowValid(a.c, a.pt)
@@ -588,6 +604,7 @@ NonNegative == Has => \A kl \in Streams(inp) :
 
 \* the cached quantities were computed from the current inputs
 CachesFresh == Has => /\ cache.pa = inp.pa
+                      /\ cache.ns = inp.ns
                       /\ inp.pl # <<>> => cache.part = PartOf(inp)
 
 \* The twin case: column l of the receive filter of user k rescaled by the non-zero Gaussian rational inp.scs[k][l]
